@@ -106,6 +106,108 @@ pub fn show(v: &AttributeValue<R>) -> String {
     }
 }
 
+/// numeric payload / target of a value (spec-level: what normalisation must preserve)
+#[derive(PartialEq, Debug)]
+enum Payload {
+    Int(i128),
+    Wide(u128),
+    Bytes(Vec<u8>),
+    Flag(bool),
+}
+
+fn payload_of(v: &AttributeValue<R>) -> Payload {
+    use AttributeValue::*;
+    let n = |x: u64| Payload::Int(x as i128);
+    let o = |x: usize| Payload::Int(x as i128);
+    match v {
+        Addr(a) => n(*a),
+        Block(b) => Payload::Bytes(b.slice().to_vec()),
+        Data1(d) => n(*d as u64),
+        Data2(d) => n(*d as u64),
+        Data4(d) => n(*d as u64),
+        Data8(d) => n(*d),
+        Data16(d) => Payload::Wide(*d),
+        Sdata(d) => Payload::Int(*d as i128),
+        Udata(d) => n(*d),
+        Exprloc(e) => Payload::Bytes(e.0.slice().to_vec()),
+        Flag(f) => Payload::Flag(*f),
+        SecOffset(x) => o(*x),
+        DebugAddrBase(x) => o(x.0),
+        DebugAddrIndex(x) => o(x.0),
+        UnitRef(x) => o(x.0),
+        DebugInfoRef(x) => o(x.0),
+        DebugInfoRefSup(x) => o(x.0),
+        DebugLineRef(x) => o(x.0),
+        LocationListsRef(x) => o(x.0),
+        DebugLocListsBase(x) => o(x.0),
+        DebugLocListsIndex(x) => o(x.0),
+        DebugMacinfoRef(x) => o(x.0),
+        DebugMacroRef(x) => o(x.0),
+        RangeListsRef(x) => o(x.0),
+        DebugRngListsBase(x) => o(x.0),
+        DebugRngListsIndex(x) => o(x.0),
+        DebugTypesRef(x) => n(x.0),
+        DebugStrRef(x) => o(x.0),
+        DebugStrRefSup(x) => o(x.0),
+        DebugStrOffsetsBase(x) => o(x.0),
+        DebugStrOffsetsIndex(x) => o(x.0),
+        DebugLineStrRef(x) => o(x.0),
+        String(s) => Payload::Bytes(s.slice().to_vec()),
+        Encoding(c) => n(c.0 as u64),
+        DecimalSign(c) => n(c.0 as u64),
+        Endianity(c) => n(c.0 as u64),
+        Accessibility(c) => n(c.0 as u64),
+        Visibility(c) => n(c.0 as u64),
+        Virtuality(c) => n(c.0 as u64),
+        Language(c) => n(c.0 as u64),
+        AddressClass(c) => n(c.0),
+        IdentifierCase(c) => n(c.0 as u64),
+        CallingConvention(c) => n(c.0 as u64),
+        Inline(c) => n(c.0 as u64),
+        Ordering(c) => n(c.0 as u64),
+        FileIndex(i) => n(*i),
+        DwoId(i) => n(i.0),
+    }
+}
+
+/// spec-level oracle for the sign rules (Spec/FormSpec.v unsigned_reading / signed_reading),
+/// evaluated on the implementation alone
+fn sign_check(v: &AttributeValue<R>) -> Option<String> {
+    use AttributeValue::*;
+    let twos = |x: u64, bits: u32| -> i64 {
+        if bits == 64 {
+            x as i64
+        } else if x >= 1u64 << (bits - 1) {
+            (x as i128 - (1i128 << bits)) as i64
+        } else {
+            x as i64
+        }
+    };
+    let (eu, es): (Option<u64>, Option<i64>) = match v {
+        Data1(d) => (Some(*d as u64), Some(twos(*d as u64, 8))),
+        Data2(d) => (Some(*d as u64), Some(twos(*d as u64, 16))),
+        Data4(d) => (Some(*d as u64), Some(twos(*d as u64, 32))),
+        Data8(d) => (Some(*d), Some(twos(*d, 64))),
+        Udata(d) => (Some(*d), if *d < (1u64 << 63) { Some(*d as i64) } else { None }),
+        Sdata(d) => (if *d >= 0 { Some(*d as u64) } else { None }, Some(*d)),
+        _ => (None, None),
+    };
+    if v.udata_value() != eu || v.sdata_value() != es {
+        return Some(format!(
+            "sign-mismatch {} udata={:?} sdata={:?}",
+            show(v),
+            v.udata_value(),
+            v.sdata_value()
+        ));
+    }
+    let e8 = eu.and_then(|x| if x < 256 { Some(x as u8) } else { None });
+    let e16 = eu.and_then(|x| if x < 65536 { Some(x as u16) } else { None });
+    if v.u8_value() != e8 || v.u16_value() != e16 {
+        return Some(format!("sign-mismatch {} u8={:?} u16={:?}", show(v), v.u8_value(), v.u16_value()));
+    }
+    None
+}
+
 fn opt<T: core::fmt::Display>(o: Option<T>) -> String {
     match o {
         Some(x) => format!("{}", x),
@@ -289,6 +391,13 @@ fn attrs(t: &[&str], with_helpers: bool) -> String {
                 }
                 let rawv = a.raw_value();
                 let norm = a.value();
+                // spec-level oracles on the implementation alone
+                if payload_of(&rawv) != payload_of(&norm) {
+                    return format!("payload-mismatch name={} {} -> {}", sp.name().0, show(&rawv), show(&norm));
+                }
+                if let Some(m) = sign_check(&rawv) {
+                    return m;
+                }
                 let mut s = format!("{}/{}", show(&rawv), show(&norm));
                 if with_helpers {
                     s.push_str(&format!(
@@ -440,7 +549,58 @@ fn helper_case(t: &[&str]) -> String {
         46 => DwoId(gimli::DwoId(n())),
         _ => return "bad-kind".to_string(),
     };
+    if let Some(m) = sign_check(&v) {
+        return m;
+    }
     format!("ok {} {}", show(&v), helpers(&v))
+}
+
+// <fmt64> <asz> <be> <form> <payload>: a DWARF 5 .debug_line header whose only directory entry has
+// the format (DW_LNCT_path, form) and the given bytes; line.rs parse_attribute decodes it.
+fn lineform(t: &[&str]) -> String {
+    let fmt64 = t[1] == "1";
+    let asz: u8 = t[2].parse().unwrap();
+    let be = t[3] == "1";
+    let form: u64 = t[4].parse().unwrap();
+    let payload = hex(t[5]);
+    let e = endian(t[3]);
+    let w = if fmt64 { 8 } else { 4 };
+    let mut hdr = Vec::new(); // after header_length
+    hdr.extend_from_slice(&[1, 1, 1, 0xfb, 14, 1]); // min_inst_len, max_ops, default_is_stmt, line_base, line_range, opcode_base
+    hdr.push(1); // directory_entry_format_count
+    uleb(&mut hdr, 1); // DW_LNCT_path
+    uleb(&mut hdr, form);
+    uleb(&mut hdr, 1); // directories_count
+    hdr.extend_from_slice(&payload);
+    hdr.extend_from_slice(&[1, 1, 0x08, 0]); // one file format (path, string), no files
+    let mut body = Vec::new();
+    put(&mut body, be, 5, 2);
+    body.push(asz);
+    body.push(0);
+    put(&mut body, be, hdr.len() as u64, w);
+    body.extend_from_slice(&hdr);
+    let mut sect = Vec::new();
+    if fmt64 {
+        put(&mut sect, be, 0xffff_ffff, 4);
+        put(&mut sect, be, body.len() as u64, 8);
+    } else {
+        put(&mut sect, be, body.len() as u64, 4);
+    }
+    sect.extend_from_slice(&body);
+    let dl = gimli::DebugLine::new(&sect, e);
+    match dl.program(DebugLineOffset(0), 4, None, None) {
+        Ok(p) => {
+            let h = p.header();
+            if h.encoding().address_size != asz || (h.encoding().format == gimli::Format::Dwarf64) != fmt64 {
+                return format!("setup-fail encoding {:?}", h.encoding());
+            }
+            match h.directory(0) {
+                Some(v) => format!("ok {}", show(&v)),
+                None => "setup-fail no-directory".to_string(),
+            }
+        }
+        Err(x) => err(&x),
+    }
 }
 
 pub fn run(t: &[&str]) -> String {
@@ -449,6 +609,7 @@ pub fn run(t: &[&str]) -> String {
         "c03.value" => attrs(t, true),
         "c03.size" => size(t),
         "c03.helpers" => helper_case(t),
+        "c03.lineform" => lineform(t),
         _ => format!("unknown-stream {}", t[0]),
     }
 }
